@@ -63,6 +63,19 @@ int main(int argc, char **argv)
     for (size_t i = 0; i < am->stateCount(); ++i) std::cout << "xstate " << i << " " << var(am->state(i)) << "\n";
     for (size_t i = 0; i < am->variableCount(); ++i) std::cout << "xvariable " << i << " " << var(am->variable(i)) << "\n";
     for (size_t i = 0; i < am->equationCount(); ++i) std::cout << "ast " << i << " " << dumpAst(am->equation(i)->ast()) << "\n";
+    for (size_t i = 0; i < am->equationCount(); ++i) {
+        auto e = am->equation(i);
+        std::cout << "xequation " << AnalyserEquation::typeAsString(e->type()) << " vars";
+        for (size_t k = 0; k < e->variableCount(); ++k) { auto x = e->variable(k)->variable(); std::cout << " " << std::dynamic_pointer_cast<Component>(x->parent())->name() << "." << x->name(); }
+        std::cout << " deps";
+        for (size_t k = 0; k < e->dependencyCount(); ++k) {
+            auto d = e->dependency(k);
+            std::cout << " [";
+            for (size_t j = 0; j < d->variableCount(); ++j) { auto x = d->variable(j)->variable(); std::cout << (j ? "," : "") << std::dynamic_pointer_cast<Component>(x->parent())->name() << "." << x->name(); }
+            std::cout << "]";
+        }
+        std::cout << " nla " << e->nlaSiblingCount() << "\n";
+    }
     std::cout << "need";
     if (am->needEqFunction()) std::cout << " eq"; if (am->needNeqFunction()) std::cout << " neq"; if (am->needLtFunction()) std::cout << " lt";
     if (am->needLeqFunction()) std::cout << " leq"; if (am->needGtFunction()) std::cout << " gt"; if (am->needGeqFunction()) std::cout << " geq";
